@@ -812,7 +812,9 @@ def unify(s: Type | Const, t: Type | Const, subst: "Subst | None") -> "Subst | N
             if len(s.inputs) != len(t.inputs):
                 return None
             for a, b in zip(s.inputs, t.inputs, strict=True):
-                if a.ty.linear and b.ty.linear and a.flags != b.flags:
+                # Owned and borrowed inputs have different calling conventions whenever
+                # the type is not copyable (a borrowed value is handed back)
+                if not a.ty.copyable and not b.ty.copyable and a.flags != b.flags:
                     return None
             return _unify_args(s, t, subst)
         case TupleType() as s, TupleType() as t:
